@@ -66,7 +66,11 @@ func LoadProgram(repo, specDir string) (*Program, error) {
 				continue
 			}
 		}
-		p.Funcs[funcKey(fn)] = fn
+		// generic functions: the generic body (type parameters as interface values) is the
+		// one verified; instances never replace it
+		if prev, ok := p.Funcs[funcKey(fn)]; !ok || (prev.Origin() != nil && fn.Origin() == nil) {
+			p.Funcs[funcKey(fn)] = fn
+		}
 		// mutable globals: stored to outside package initialisers
 		if fn.Name() == "init" || strings.HasPrefix(fn.Name(), "init#") {
 			for _, b := range fn.Blocks {
